@@ -50,6 +50,12 @@ struct Spec {
     cdh_len: usize,
     /// makeCredential only: the plain hmac-secret request flag
     hmac_secret_flag: Option<bool>,
+    /// pinProtocol member, independent of pinAuth
+    pin_protocol: Option<u8>,
+    /// list descriptors carry the type string "public-key" (0), an unknown one (1), alternating (2)
+    list_types: u8,
+    /// transports hints on list descriptors
+    list_hints: bool,
 }
 
 fn gen(seed: u64, idx: u64) -> Spec {
@@ -63,7 +69,7 @@ fn gen(seed: u64, idx: u64) -> Spec {
     Spec {
         op,
         store,
-        cfg: AuthCfg { counters: rng.bool(), id_len: Some(*rng.pick(&[16u8, 32, 64])), hmac: *rng.pick(&[HmacCfg::None, HmacCfg::WithoutUv, HmacCfg::UvOnly]), hmac_mc: rng.bool() },
+        cfg: AuthCfg { counters: rng.bool(), id_len: Some(*rng.pick(&[16u8, 32, 64])), hmac: *rng.pick(&[HmacCfg::None, HmacCfg::WithoutUv, HmacCfg::UvOnly]), hmac_mc: rng.bool(), ..Default::default() },
         disc: *rng.pick(&[Disc::Full, Disc::Forced, Disc::OnlyNonDiscoverable]),
         uv_outcome: match rng.below(8) {
             0 => UvOutcome::Check { presence: true, verification: false },
@@ -102,13 +108,16 @@ fn gen(seed: u64, idx: u64) -> Spec {
             1 => Some(false),
             _ => None,
         },
+        pin_protocol: *rng.pick(&[None, None, None, None, Some(1u8), Some(2), Some(0)]),
+        list_types: *rng.pick(&[0u8, 0, 0, 1, 2]),
+        list_hints: rng.chance(1, 4),
     }
 }
 
 fn spec_json(s: &Spec) -> Value {
     json!({"op": format!("{:?}", s.op), "store": format!("{:?}", s.store), "config": s.cfg.json(), "capability": format!("{:?}", s.disc),
         "uv_outcome": format!("{:?}", s.uv_outcome), "verification_capability": s.ver_cap, "rp": s.rp, "seeded_credentials": s.n_seeded,
-        "list": s.list, "algs": s.algs, "rk": s.rk, "up": s.up, "uv": s.uv, "prf": s.prf, "pin_auth": s.pin_auth, "client_data_hash_len": s.cdh_len, "hmac_secret_flag": s.hmac_secret_flag})
+        "list": s.list, "algs": s.algs, "rk": s.rk, "up": s.up, "uv": s.uv, "prf": s.prf, "pin_auth": s.pin_auth, "client_data_hash_len": s.cdh_len, "hmac_secret_flag": s.hmac_secret_flag, "pin_protocol": s.pin_protocol, "list_descriptor_types": s.list_types, "list_transport_hints": s.list_hints})
 }
 
 pub fn describe(args: &Args, idx: u64) -> CaseDesc {
@@ -182,7 +191,7 @@ where
             Ok(())
         }
         OpKind::Make => {
-            let exclude = s.list.as_ref().map(|l| l.iter().map(|i| descriptor(ids.get(*i).map(|v| v.as_slice()).unwrap_or(&[0xEE; 32]))).collect());
+            let exclude = s.list.as_ref().map(|l| l.iter().enumerate().map(|(n, i)| list_descriptor(s, n, ids.get(*i).map(|v| v.as_slice()).unwrap_or(&[0xEE; 32]))).collect());
             let ext = (s.prf || s.hmac_secret_flag.is_some()).then(|| ctap2::make_credential::ExtensionInputs {
                 hmac_secret: s.hmac_secret_flag,
                 hmac_secret_mc: None,
@@ -190,6 +199,7 @@ where
             });
             let params = s.algs.iter().map(|a| { use coset::iana::EnumI64; pk_param(coset::iana::Algorithm::from_i64(*a).unwrap()) }).collect();
             let mut req = mc_request(s.rp, b"user-x", &vec![7u8; s.cdh_len], params, exclude, ext, s.rk, s.up, s.uv);
+            req.pin_protocol = s.pin_protocol;
             if s.pin_auth {
                 req.pin_auth = Some(vec![1, 2].into());
             }
@@ -213,12 +223,13 @@ where
             }
         }
         OpKind::Get => {
-            let allow = s.list.as_ref().map(|l| l.iter().map(|i| descriptor(ids.get(*i).map(|v| v.as_slice()).unwrap_or(&[0xEE; 32]))).collect());
+            let allow = s.list.as_ref().map(|l| l.iter().enumerate().map(|(n, i)| list_descriptor(s, n, ids.get(*i).map(|v| v.as_slice()).unwrap_or(&[0xEE; 32]))).collect());
             let ext = s.prf.then(|| ctap2::get_assertion::ExtensionInputs {
                 hmac_secret: None,
                 prf: Some(ctap2::extensions::AuthenticatorPrfInputs { eval: Some(ctap2::extensions::AuthenticatorPrfValues { first: [4; 32], second: Some([5; 32]) }), eval_by_credential: None }),
             });
             let mut req = ga_request(s.rp, &vec![8u8; s.cdh_len], allow, ext, s.up, s.uv);
+            req.pin_protocol = s.pin_protocol;
             if s.pin_auth {
                 req.pin_auth = Some(vec![1, 2].into());
             }
@@ -380,5 +391,15 @@ fn key_shape(bytes: &[u8]) -> String {
             format!("kty {} alg {} crv {}", get(1), get(3), get(-1))
         }
         _ => "undecodable".into(),
+    }
+}
+
+fn list_descriptor(s: &Spec, n: usize, id: &[u8]) -> passkey_types::webauthn::PublicKeyCredentialDescriptor {
+    let known = s.list_types == 0 || (s.list_types == 2 && n % 2 == 0);
+    let d = crate::util::descriptor_typed(id, known);
+    if s.list_hints {
+        crate::props::cer::hinted(d)
+    } else {
+        d
     }
 }
